@@ -69,12 +69,16 @@ A_UY = Atom("use(y)", "use(y)", (("use", "y"),))
 A_RET = Atom("return", "return", (), kind="return")
 A_DEF = Atom("def-inner", "def inner() -> None:\n    use(x)", (("use", "x"), ("def", "inner", "F")))
 A_CALL = Atom("inner()", "inner()", (("use", "inner"),))
+# a SECOND definition of the same nested name that reads another outer variable
+A_Y1 = Atom("y=1", "y = 1", (("def", "y", "I"),))
+A_DEF2 = Atom("def-inner-reading-y", "def inner() -> None:\n    use(y)", (("use", "y"), ("def", "inner", "F")))
 
 BASE_ATOMS = (A_X1, A_XT, A_YX, A_UX, A_UY, A_RET)
 NESTED_ATOMS = (A_X1, A_XT, A_UX, A_DEF, A_CALL, A_RET)
+NESTED2_ATOMS = (A_X1, A_Y1, A_DEF, A_DEF2, A_CALL, A_RET)
 LIT_ATOMS = (A_X1, A_UX, A_YX, A_UY, A_RET)
 TYPED_ATOMS = (A_XT, A_X2, A_YX, A_UX, A_UY, A_RET)
-ALL_ATOMS = (A_X1, A_XT, A_X2, A_YX, A_UX, A_UY, A_RET, A_DEF, A_CALL)
+ALL_ATOMS = (A_X1, A_XT, A_X2, A_YX, A_UX, A_UY, A_RET, A_DEF, A_CALL, A_Y1, A_DEF2)
 
 PRELUDE_MOD = "vc08_prelude"
 PRELUDE_SRC = (
@@ -104,6 +108,7 @@ def bounds(tier: str) -> dict:
             "base": [(4, 2, W, False), (3, 2, WF, True)],
             "typed": [(3, 2, WF, False)],
             "nested": [(4, 2, W, False), (3, 2, WF, True)],
+            "nested2": [(5, 2, W, False)],
             "dead": [(3, 2, WF, False)],
             "dead-typed": [(4, 1, W, False)],
             "literal": [(3, 2, WF, False)],
@@ -112,6 +117,7 @@ def bounds(tier: str) -> dict:
         "base": [(5, 3, W, False), (4, 3, WF, True)],
         "typed": [(4, 3, WF, False)],
         "nested": [(5, 3, W, False), (4, 3, WF, True)],
+        "nested2": [(6, 2, W, False), (4, 2, WF, True)],
         "dead": [(4, 2, WF, False)],
         "dead-typed": [(4, 2, WF, False)],
         "literal": [(4, 2, WF, False)],
@@ -164,6 +170,9 @@ def programs(tier: str):
     for body in _enum(NESTED_ATOMS, b["nested"]):
         if _contains(body, A_DEF):
             yield ("nested", body, None)
+    for body in _enum(NESTED2_ATOMS, b["nested2"]):
+        if _contains(body, A_DEF) and _contains(body, A_DEF2):
+            yield ("nested2", body, None)
     for body in _enum(BASE_ATOMS, b["dead"], allow_dead_code=True):
         if pg.has_dead_code(body):
             yield ("dead", body, None)
@@ -450,7 +459,7 @@ def judge(family, out, c) -> tuple:
 
 def _fam(family: str) -> str:
     """Coarse family group used in violation keys (one defect, one key)."""
-    if family == "nested":
+    if family.startswith("nested"):
         return "nested"
     if family.startswith("dead"):
         return "unreachable-code"
